@@ -144,6 +144,8 @@ func init() {
 	rule := "a run is non-trivial when the cache served at least one hit or stored at least two entries"
 	register(&Profile{Prop: "C07", Name: "sequential", Quick: 16000, Thorough: 500000, Gen: genC07(false, false), Check: checkC07, Rule: rule})
 	register(&Profile{Prop: "C07", Name: "concurrent", Quick: 10000, Thorough: 300000, Gen: genC07(true, false), Check: checkC07, Rule: rule})
+	register(&Profile{Prop: "C07", Name: "concurrent-pre", Pre: true, Quick: 4000, Thorough: 40000, Gen: preempt(genC07(true, false)), Check: checkC07,
+		Rule: "as concurrent; a task can be preempted before every statement of rux (instrumented copy)"})
 	register(&Profile{Prop: "C07", Name: "concurrent-race", Race: true, Quick: 1500, Thorough: 40000, Gen: coarseRace(genC07(true, true)), Check: checkC07,
 		Rule: "as concurrent-cacheloss, executed under the race detector with coarse schedules", Faulty: true})
 	register(&Profile{Prop: "C07", Name: "sequential-cacheloss", Quick: 10000, Thorough: 300000, Gen: genC07(false, true), Check: checkC07, Rule: rule, Faulty: true})
